@@ -192,8 +192,11 @@ typename LeastSquares<RealType>::Vector LeastSquares<RealType>::estimateUsingSVD
 
   Eigen::JacobiSVD<Matrix> svd(JtJ_, Eigen::ComputeThinU | Eigen::ComputeThinV);
   inverseJtJ_ = svd.singularValues().asDiagonal();
+  // singular values are sorted: the cut-off follows the scale of a small-magnitude problem
+  const RealType cutoff = std::numeric_limits<RealType>::epsilon() *
+    std::min(RealType(1), svd.singularValues()(0));
   for (int n = 0; n < estimateSize_; n++) {
-    if (inverseJtJ_(n, n) > std::numeric_limits<RealType>::epsilon()) {
+    if (inverseJtJ_(n, n) > cutoff) {
       inverseJtJ_(n, n) = 1 / inverseJtJ_(n, n);
     }
   }
